@@ -47,6 +47,8 @@ pub fn run(a: &Args) -> i32 {
         enum_path: String,
         enum_name: String,
         input: Value,
+        /// JSON text to send when it is not the canonical rendering of `input` (escaped spellings)
+        raw: Option<String>,
         schema_value: bool,
         near: bool,
     }
@@ -81,16 +83,19 @@ pub fn run(a: &Args) -> i32 {
                 let ser: Vec<(String, String)> = it.items()[5].items().iter().map(|p| (p.items()[0].as_str().unwrap().to_string(), p.items()[1].as_str().unwrap().to_string())).collect();
                 let de: Vec<(String, String)> = it.items()[6].items().iter().map(|p| (p.items()[0].as_str().unwrap().to_string(), p.items()[1].as_str().unwrap().to_string())).collect();
                 let wire: Vec<String> = de.iter().map(|p| p.0.clone()).collect();
-                tables_checked += 1;
-                if wire != values {
+                let tables_available = !(c.lenient && ser.is_empty() && de.is_empty());
+                if tables_available {
+                    tables_checked += 1;
+                }
+                if tables_available && wire != values {
                     rep.fail("enum-wire-names-differ-from-schema", json!({"enum": name, "schema_values": values, "deserialize_arms": wire, "schema": c.sdl, "options": c.opts.describe()}));
                 }
                 let inv: Vec<(String, String)> = de.iter().map(|(w, v)| (v.clone(), w.clone())).collect();
-                if inv != ser {
+                if tables_available && inv != ser {
                     rep.fail("enum-tables-not-inverse", json!({"enum": name, "ser": ser, "de": de, "schema": c.sdl, "options": c.opts.describe()}));
                 }
                 // model check of the hypotheses of the Lean theorems on the extracted tables
-                if u.ctx.model.available() {
+                if tables_available && u.ctx.model.available() {
                     let r = u.ctx.model.ask(&tagged("enum-wf", vec![it.clone()]));
                     if r.render() != "(ok true)" {
                         rep.disagree(json!({"what": "extracted enum tables do not satisfy the hypotheses of the Lean bijection theorems", "enum": name, "reply": r.render(), "item": it.short(600)}));
@@ -98,8 +103,17 @@ pub fn run(a: &Args) -> i32 {
                 }
                 let path = format!("{}::{}", m.mod_name, name);
                 let mut push = |input: Value, schema_value: bool, near: bool| {
-                    vs.push(V { case: c.id, module: mi, enum_path: path.clone(), enum_name: name.clone(), input, schema_value, near });
+                    vs.push(V { case: c.id, module: mi, enum_path: path.clone(), enum_name: name.clone(), input, raw: None, schema_value, near });
                 };
+                // the same strings spelled with a JSON escape (`\u0041CTIVE`): cannot be borrowed from the input
+                let mut escaped: Vec<(Value, String)> = Vec::new();
+                for v in values.iter().chain(["not_a_value".to_string()].iter()) {
+                    if let Some(first) = v.chars().next() {
+                        let rest: String = v.chars().skip(1).collect();
+                        let rest_json = serde_json::to_string(&rest).unwrap();
+                        escaped.push((json!(v), format!("\"\\u{:04x}{}", first as u32, &rest_json[1..])));
+                    }
+                }
                 for v in &values {
                     push(json!(v), true, false);
                     for nm in near_misses(v) {
@@ -121,15 +135,19 @@ pub fn run(a: &Args) -> i32 {
                 for j in [json!(null), json!(3), json!(true), json!(["A"]), json!({"a": 1}), json!(1.5)] {
                     push(j, false, false);
                 }
+                for (val, raw) in escaped {
+                    let is_schema = values.iter().any(|x| json!(x) == val);
+                    vs.push(V { case: c.id, module: mi, enum_path: path.clone(), enum_name: name.clone(), input: val, raw: Some(raw), schema_value: is_schema, near: false });
+                }
             }
         }
     }
-    let requests: Vec<(usize, String, String, String)> = vs.iter().map(|v| (v.case, "enum".to_string(), v.enum_path.clone(), v.input.to_string())).collect();
+    let requests: Vec<(usize, String, String, String)> = vs.iter().map(|v| (v.case, "enum".to_string(), v.enum_path.clone(), v.raw.clone().unwrap_or_else(|| v.input.to_string()))).collect();
     let replies = vcore::consumer::run_consumer(&exe, &requests);
     let mut variant_of: std::collections::BTreeMap<(usize, String, String), String> = Default::default();
     for (v, raw) in vs.iter().zip(replies.iter()) {
         let c = &u.cases[v.case];
-        let key = format!("{}|{}|{}", c.sdl, v.enum_path, v.input);
+        let key = format!("{}|{}|{}|{}", c.sdl, v.enum_path, v.input, v.raw.as_deref().unwrap_or(""));
         rep.case(if v.schema_value || v.near { Some(&key) } else { None });
         rep.count(if v.schema_value { "input:schema-value" } else if v.near { "input:near-miss" } else if v.input.is_string() { "input:other-string" } else { "input:non-string" });
         let case_json = |extra: Value| json!({"schema": c.sdl, "options": c.opts.describe(), "enum": v.enum_path, "input": v.input, "implementation_reply": raw, "detail": extra});
@@ -169,6 +187,9 @@ pub fn run(a: &Args) -> i32 {
                 rep.internal.push(format!("consumer reply: {}", o));
                 plain = Reply::Other(o.clone());
             }
+        }
+        if c.lenient {
+            continue;
         }
         let m = model_rt(&mut u.ctx.model, env_id(v.case, v.module), &v.enum_name, &v.input);
         match tie(&plain, &m) {
